@@ -113,12 +113,66 @@ fn lazy_and_pixel(t: &mut Tally) {
                         "H(0009,1001)".to_string(), v, "i".to_string(), "s".to_string(), "H(0010,0020)".to_string(), v2];
                     if err.is_some() || toks != want || consumed != stream.len() { t.fail(format!("{}: tokens {:?} (error {:?}, {} of {} bytes consumed), expected {:?}", label, toks, err, consumed, stream.len(), want)); }
                 }
+                // the same item inside a DEFINED-length sequence whose own declared length is therefore odd, then the sentinel
+                let mut stream2 = vec![0x08, 0x00, 0x15, 0x11, b'S', b'Q', 0, 0];
+                stream2.extend_from_slice(&((item.len() - extra) as u32).to_le_bytes());
+                stream2.extend_from_slice(&item);
+                stream2.extend_from_slice(&sent);
+                for mode in 0..2u8 {
+                    t.cases += 1;
+                    let label = format!("lazy reader ({}), {:?}, defined-length sequence of odd declared length {} holding an item of odd length holding VR {} of declared length {}",
+                        if mode == 0 { "skip" } else { "read_value_into" }, strategy, item.len() - extra, vr.to_string(), len);
+                    let (toks, err, consumed) = run_lazy(&stream2, strategy, mode);
+                    if strategy == OddLengthStrategy::Fail {
+                        if err.is_none() || !toks.is_empty() { t.fail(format!("{}: expected an error as the first token, got {:?} / {:?}", label, toks, err)); }
+                        continue;
+                    }
+                    let v = if mode == 0 { "V".to_string() } else { format!("V{}", len as usize + extra) };
+                    let v2 = if mode == 0 { "V".to_string() } else { "V2".to_string() };
+                    let want: Vec<String> = vec!["S(0008,1115)".to_string(), "I".to_string(), "H(0009,1001)".to_string(), v, "i".to_string(), "s".to_string(), "H(0010,0020)".to_string(), v2];
+                    if err.is_some() || toks != want || consumed != stream2.len() { t.fail(format!("{}: tokens {:?} (error {:?}, {} of {} bytes consumed), expected {:?}", label, toks, err, consumed, stream2.len(), want)); }
+                }
+                // and through the eager reader
+                {
+                    t.cases += 1;
+                    let label = format!("eager reader, {:?}, defined-length sequence of odd declared length {} holding an item of odd length holding VR {} of declared length {}", strategy, item.len() - extra, vr.to_string(), len);
+                    let mut cur = Cursor::new(&stream2[..]);
+                    let mut options = DataSetReaderOptions::default();
+                    options.odd_length = strategy;
+                    let mut toks: Vec<String> = Vec::new();
+                    let mut err = None;
+                    {
+                        let reader = DataSetReader::new_with_ts_options(&mut cur, &ts, options).unwrap();
+                        for tok in reader {
+                            match tok {
+                                Ok(DataToken::SequenceStart { tag, .. }) => toks.push(format!("S{}", tag)),
+                                Ok(DataToken::ItemStart { .. }) => toks.push("I".to_string()),
+                                Ok(DataToken::ItemEnd) => toks.push("i".to_string()),
+                                Ok(DataToken::SequenceEnd) => toks.push("s".to_string()),
+                                Ok(DataToken::ElementHeader(h)) => toks.push(format!("H{}", h.tag)),
+                                Ok(DataToken::PrimitiveValue(_)) => toks.push("V".to_string()),
+                                Ok(_) => toks.push("?".to_string()),
+                                Err(e) => { err = Some(e.to_string()); break; }
+                            }
+                            if toks.len() > 32 { break; }
+                        }
+                    }
+                    if strategy == OddLengthStrategy::Fail {
+                        if err.is_none() || !toks.is_empty() { t.fail(format!("{}: expected an error as the first token, got {:?} / {:?}", label, toks, err)); }
+                    } else {
+                        let want: Vec<String> = ["S(0008,1115)", "I", "H(0009,1001)", "V", "i", "s", "H(0010,0020)", "V"].iter().map(|x| x.to_string()).collect();
+                        if err.is_some() || toks != want || cur.position() as usize != stream2.len() { t.fail(format!("{}: tokens {:?} (error {:?}, {} of {} bytes consumed), expected {:?}", label, toks, err, cur.position(), stream2.len(), want)); }
+                    }
+                }
             }
         }
-        // encapsulated pixel data: offset table of 0 / 4 / 8 bytes, two fragments, the first with an odd declared length
-        for table_len in [0usize, 4, 8] { for flen in [1u32, 3, 5] {
+        // encapsulated pixel data: offset table of 0 / 4 / 8 bytes and of lengths that are not a multiple of 4 (5, 7, 6, 2, 1), two fragments, the
+        // first with an odd declared length
+        for table_len in [0usize, 4, 8, 5, 7, 6, 2, 1] { for flen in [1u32, 3, 5] {
+            // an offset table item whose declared length is odd takes one more byte under NextEven, like any other item
+            let table_bytes = table_len + if table_len % 2 == 1 { extra } else { 0 };
             let mut stream = vec![0xE0, 0x7F, 0x10, 0x00, b'O', b'B', 0, 0, 0xFF, 0xFF, 0xFF, 0xFF];
-            stream.extend_from_slice(&[0xFE, 0xFF, 0x00, 0xE0]); stream.extend_from_slice(&(table_len as u32).to_le_bytes()); stream.extend(std::iter::repeat(0u8).take(table_len));
+            stream.extend_from_slice(&[0xFE, 0xFF, 0x00, 0xE0]); stream.extend_from_slice(&(table_len as u32).to_le_bytes()); stream.extend(std::iter::repeat(0u8).take(table_bytes));
             stream.extend_from_slice(&[0xFE, 0xFF, 0x00, 0xE0]); stream.extend_from_slice(&flen.to_le_bytes()); stream.extend(std::iter::repeat(0xAAu8).take(flen as usize + extra));
             stream.extend_from_slice(&[0xFE, 0xFF, 0x00, 0xE0]); stream.extend_from_slice(&4u32.to_le_bytes()); stream.extend_from_slice(&[1, 2, 3, 4]);
             stream.extend_from_slice(&[0xFE, 0xFF, 0xDD, 0xE0, 0, 0, 0, 0]);
@@ -149,7 +203,7 @@ fn lazy_and_pixel(t: &mut Tally) {
             }
             if strategy == OddLengthStrategy::Fail {
                 if err.is_none() { t.fail(format!("{} (eager reader): an odd fragment length was accepted under the failing strategy (fragments {:?})", label, frags)); }
-            } else if err.is_some() || frags != vec![flen as usize + extra, 4] || table.unwrap_or(0) != table_len / 4 || tail != vec!["H(0010,0020)".to_string(), "V2".to_string()] || cur.position() as usize != stream.len() {
+            } else if err.is_some() || frags != vec![flen as usize + extra, 4] || table.unwrap_or(0) != table_bytes / 4 || tail != vec!["H(0010,0020)".to_string(), "V2".to_string()] || cur.position() as usize != stream.len() {
                 t.fail(format!("{} (eager reader): offset table {:?} entries, fragments {:?}, then {:?} (error {:?}, {} of {} bytes consumed)", label, table, frags, tail, err, cur.position(), stream.len()));
             }
             // lazy
